@@ -16,6 +16,22 @@
 //                             a timer is planned; on an empty manager: @F:C16-minimal-interval-empty)
 //   reset s / sinit a b / splan a b / sstart a / sswift / sfinish / scheck t / speriodic t   (stimer)
 //
+// extensions
+//   reset u <n> | reset U <n> the SAME manager over a wrapping counter: timer_manager_basic<timer_spec<uint32_t>>.
+//                             Op lines carry UNBOUNDED tick values; the real code gets them modulo 2^32, the
+//                             reference scheduler of the oracle keeps them unbounded ("u": the history respects
+//                             the window precondition, oracle on; "U": it does not, only the model is compared)
+//   reset z <n>               like reset <n>, the last timer has an UNARMED delegate (delegate::invoke returns R())
+//   reset S                   stimer with tick values that may lie beyond LONG_MAX (given to the code modulo 2^64)
+//   sets <i> <v> / seti <i> <v>   timer i .set_start(v) / .set_interval(v)  (also on a planned timer)
+//   replan <i>                manager.plan(timer i)  with the fields the timer has
+//   destroy <i>               delete timer i; a fresh timer object takes its slot
+//   dropmgr                   delete the manager while timers may be planned (~dlist_base: pop_front), fresh manager
+//   more callback acts:  s<j>.<v> set_start, i<j>.<v> set_interval, r<j> manager.plan(timer j),
+//                        d<j> destroy timer j, x<now> manager.exec(now) from inside the callback
+//   the delegates are of the three kinds of igris::delegate: plain function (id%3==0), member function
+//   (id%3==1), external function + object (id%3==2)
+//
 // result  = "f=<id>:<deadline>,... t=<finish>/<is_planned>,... e=<empty> m=<minimal_interval|->"
 // oracle  = an independent reference scheduler (map id -> (deadline, period) + multiset of
 //           deadlines) that never looks at the manager's list: every callback must be the
@@ -52,7 +68,7 @@ static_assert(std::is_same<igris::timer_spec<int64_t>::difftime_t, int64_t>::val
 // ---------------------------------------------------------------------------
 struct act
 {
-    char kind; // 'u' | 'p'
+    char kind; // 'u' unplan | 'p' plan | 's' set_start | 'i' set_interval | 'r' plan(tim) | 'd' destroy | 'x' nested exec(s)
     int j;
     i64 s, iv;
 };
@@ -90,7 +106,14 @@ static std::vector<rule> parse_rules(const std::string &s)
             for (auto &a : split(sa[1], ','))
             {
                 act t{a[0], 0, 0, 0};
-                if (a[0] == 'u') t.j = atoi(a.c_str() + 1);
+                if (a[0] == 'u' || a[0] == 'r' || a[0] == 'd') t.j = atoi(a.c_str() + 1);
+                else if (a[0] == 'x') t.s = strtoll(a.c_str() + 1, 0, 10);
+                else if (a[0] == 's' || a[0] == 'i')
+                {
+                    auto f = split(a.substr(1), '.');
+                    t.j = atoi(f[0].c_str());
+                    t.s = strtoll(f[1].c_str(), 0, 10);
+                }
                 else
                 {
                     auto f = split(a.substr(1), '.');
@@ -108,11 +131,14 @@ static std::vector<rule> parse_rules(const std::string &s)
 // ---------------------------------------------------------------------------
 // reference scheduler: pending set as id -> (deadline, period); a multiset of
 // deadlines gives "earliest".  Written from the property text, not from the code.
+// Unbounded time (int64 far away from its limits).  `fld` = the (start, interval)
+// fields every timer object holds (needed for set_start / set_interval / plan(tim)).
 // ---------------------------------------------------------------------------
 struct refsched
 {
     std::map<int, std::pair<i64, i64>> pend;
     std::multiset<i64> dl;
+    std::map<int, std::pair<i64, i64>> fld;
     void unplan(int j)
     {
         auto it = pend.find(j);
@@ -123,130 +149,361 @@ struct refsched
     void plan(int j, i64 s, i64 iv)
     {
         unplan(j);
+        fld[j] = {s, iv};
         pend[j] = {s + iv, iv};
         dl.insert(s + iv);
     }
+    void replan(int j) { plan(j, fld[j].first, fld[j].second); }
     bool pending(int j) const { return pend.count(j) != 0; }
     bool empty() const { return dl.empty(); }
     i64 earliest() const { return *dl.begin(); }
 };
 
 // ---------------------------------------------------------------------------
+// the manager under test, for either TimeSpec
+// ---------------------------------------------------------------------------
+static void on_fire(int id);
+struct firer
+{
+    int cookie = 0x5a5a;
+    void fire(int id) { if (cookie != 0x5a5a) abort(); on_fire(id); }
+};
+static firer FIRER;
+static void ext_fire(void *obj, int id)
+{
+    if (obj != (void *)&FIRER) abort();
+    on_fire(id);
+}
+
+struct iface
+{
+    virtual ~iface() {}
+    virtual size_t n() const = 0;
+    virtual void plan(int i, i64 s, i64 iv) = 0;
+    virtual void set_start(int i, i64 v) = 0;
+    virtual void set_interval(int i, i64 v) = 0;
+    virtual void plan1(int i) = 0;
+    virtual void unplan(int i) = 0;
+    virtual void exec(i64 now) = 0;
+    virtual bool is_planned(int i) = 0;
+    virtual i64 finish(int i) = 0;                // raw value as the code returns it
+    virtual bool empty() = 0;
+    virtual i64 minimal_interval(i64 cur) = 0;    // raw
+    virtual void renew(int i) = 0;                // delete timer i, construct a fresh one in its slot
+    virtual void renew_mgr() = 0;                 // delete the manager, construct a fresh one
+    virtual i64 virt(i64 raw, i64 cur) = 0;       // the unbounded tick value nearest to cur that the code's value stands for
+    virtual i64 raw_time(i64 v) = 0;              // an unbounded tick value as the code's time_t prints
+    virtual i64 raw_diff(i64 v) = 0;              // an unbounded difference as the code's difftime_t prints
+};
+
+template <class Spec> struct impl : iface
+{
+    using T = typename Spec::time_t;
+    using D = typename Spec::difftime_t;
+    using mgr_t = igris::timer_manager_basic<Spec>;
+    using tim_t = igris::timer_basic<Spec, int>;
+    mgr_t *mgr = nullptr;
+    std::vector<tim_t *> tim;
+    int unarmed = -1;
+    tim_t *make(int i)
+    {
+        if (i == unarmed) return new tim_t(igris::delegate<void, int>(), (int)i);
+        switch (i % 3)
+        {
+        case 0: return new tim_t(igris::make_delegate(on_fire), (int)i);
+        case 1: return new tim_t(igris::make_delegate(&firer::fire, &FIRER), (int)i);
+        default: return new tim_t(igris::make_delegate(ext_fire, (void *)&FIRER), (int)i);
+        }
+    }
+    impl(int n, int unarmed_) : unarmed(unarmed_)
+    {
+        mgr = new mgr_t;
+        for (int i = 0; i < n; i++) tim.push_back(make(i));
+    }
+    ~impl() override
+    {
+        for (auto *t : tim) delete t;
+        delete mgr;
+    }
+    size_t n() const override { return tim.size(); }
+    void plan(int i, i64 s, i64 iv) override { mgr->plan(*tim[i], (T)s, (D)iv); }
+    void set_start(int i, i64 v) override { tim[i]->set_start((T)v); }
+    void set_interval(int i, i64 v) override { tim[i]->set_interval((D)v); }
+    void plan1(int i) override { mgr->plan(*tim[i]); }
+    void unplan(int i) override { tim[i]->unplan(); }
+    void exec(i64 now) override { mgr->exec((T)now); }
+    bool is_planned(int i) override { return tim[i]->is_planned(); }
+    i64 finish(int i) override { return (i64)tim[i]->finish(); }
+    bool empty() override { return mgr->empty(); }
+    i64 minimal_interval(i64 cur) override { return (i64)mgr->minimal_interval((T)cur); }
+    void renew(int i) override
+    {
+        delete tim[i];
+        tim[i] = make(i);
+    }
+    void renew_mgr() override
+    {
+        delete mgr;
+        mgr = new mgr_t;
+    }
+    i64 virt(i64 raw, i64 cur) override
+    {
+        if (sizeof(T) == 8) return raw;
+        return cur + (i64)(int32_t)((uint32_t)raw - (uint32_t)cur);
+    }
+    i64 raw_time(i64 v) override { return (i64)(T)v; }
+    i64 raw_diff(i64 v) override { return (i64)(D)v; }
+};
+typedef igris::timer_spec<uint32_t> spec_u32;
+static_assert(std::is_same<spec_u32::difftime_t, uint32_t>::value, "difftime_t of the unsigned instance is uint32_t");
+static_assert(std::is_same<igris::timer_manager, igris::timer_manager_basic<igris::timer_spec<int64_t>>>::value, "");
+
+// ---------------------------------------------------------------------------
 // the case under test
 // ---------------------------------------------------------------------------
+struct ectx // one (possibly nested) exec call
+{
+    i64 now = 0;
+    bool have_prev = false;
+    i64 prev_deadline = 0;
+    std::set<int> planned_by_prev; // timers planned by the previous callback of this exec call
+    int cur_id = -1;               // the timer whose callback is running
+};
 struct world
 {
-    igris::timer_manager *mgr = nullptr;
-    std::vector<igris::timer<int> *> tim;
+    iface *t = nullptr;
+    bool oracle_on = true; // false: history outside the precondition / outside the property, model comparison only
+    bool dirty = false;    // a setter hit a planned timer: the list is no longer sorted by construction
     refsched ref;
     i64 cur = 0;
     // per exec
     std::vector<rule> rules;
     i64 now = 0;
+    i64 maxnow = 0; // latest time any exec (also a nested one) of this case was given
     int k = 0;
-    std::vector<std::pair<int, i64>> fires;
-    std::set<int> planned_by_prev; // timers planned by the previous callback
-    std::set<int> touched;         // timers targeted by any callback action in this exec
-    i64 prev_deadline = 0;
+    std::vector<std::pair<int, i64>> fires; // (id, raw deadline)
+    std::set<int> touched;                  // timers targeted by any callback action in this exec
+    std::vector<ectx> stack;
+    bool nested_seen = false;
+    // a timer that nobody re-planned must not fire twice for one deadline
+    std::map<int, i64> last_fire;
+    // no-drift over the history: timer planned at (s, iv) and left alone since: k-th firing is s + k*iv
+    struct anchor { i64 s, iv, count; };
+    std::map<int, anchor> anch;
+    int unarmed = -1;                 // the timer whose delegate is unarmed (reset z)
+    unsigned long self_touch_gen = 0; // bumped whenever a callback names the timer it runs for
     out *o = nullptr;
     bool in_exec = false;
     bool fires_seen = false; // an exec has happened in this case
 };
 static world W;
+static void ofail(const std::string &why)
+{
+    if (W.oracle_on && !W.dirty) W.o->fail(why);
+}
+static void ref_touch(int j)
+{
+    for (auto &c : W.stack)
+        if (j == c.cur_id) W.self_touch_gen++;
+    W.touched.insert(j);
+    W.last_fire.erase(j);
+    W.anch.erase(j);
+}
+
+// the timer with the unarmed delegate runs (and is re-armed) without any callback the harness could see: the
+// reference lets it run whenever its deadline lies before `bound` (or at it, when `inclusive`)
+static void ref_unarmed(i64 bound, bool inclusive)
+{
+    world &w = W;
+    int u = w.unarmed;
+    if (u < 0) return;
+    while (w.ref.pending(u) && (w.ref.pend[u].first < bound || (inclusive && w.ref.pend[u].first == bound)))
+    {
+        auto p = w.ref.pend[u];
+        if (p.second <= 0) break;
+        w.ref.plan(u, p.first, p.second);
+    }
+}
 
 static void on_fire(int id)
 {
     world &w = W;
     out &o = *w.o;
-    igris::timer<int> &t = *w.tim[id];
-    i64 d = t.finish();
-    if (w.fires.size() < 100000) w.fires.push_back({id, d});
+    iface &t = *w.t;
+    ectx &c = w.stack.back();
+    int myk = w.k++;
+    i64 raw = t.finish(id);
+    i64 d = t.virt(raw, c.now);
+    ref_unarmed(d, false);
+    if (w.fires.size() < 100000) w.fires.push_back({id, raw});
     // ---- oracle, on the real callback ----
-    if (syslock_counter() != 0) o.fail("callback runs with the system lock held");
-    if (!t.is_planned()) o.fail("callback of a timer that is not planned");
-    if (d > w.now) o.fail("callback before the deadline: timer " + std::to_string(id));
-    if (!w.ref.pending(id)) o.fail("callback of a timer the reference does not have pending: timer " + std::to_string(id));
+    if (syslock_counter() != 0) ofail("callback runs with the system lock held");
+    if (!t.is_planned(id)) ofail("callback of a timer that is not planned");
+    if (d > c.now) ofail("callback before the deadline: timer " + std::to_string(id));
+    if (!w.ref.pending(id)) ofail("callback of a timer the reference does not have pending: timer " + std::to_string(id));
     else
     {
-        if (w.ref.pend[id].first != d) o.fail("deadline at callback differs from the reference deadline: timer " + std::to_string(id));
-        if (w.ref.earliest() != w.ref.pend[id].first) o.fail("callback is not the earliest pending deadline: timer " + std::to_string(id));
+        if (w.ref.pend[id].first != d) ofail("deadline at callback differs from the reference deadline: timer " + std::to_string(id));
+        if (w.ref.earliest() != w.ref.pend[id].first) ofail("callback is not the earliest pending deadline: timer " + std::to_string(id));
     }
-    if (w.k > 0 && d < w.prev_deadline && !w.planned_by_prev.count(id))
-        o.fail("callbacks out of deadline order although the previous callback did not plan this timer");
+    if (c.have_prev && d < c.prev_deadline && !c.planned_by_prev.count(id))
+        ofail("callbacks out of deadline order although the previous callback did not plan this timer");
+    if (w.last_fire.count(id) && w.last_fire[id] >= d)
+        ofail("timer " + std::to_string(id) + " fired twice for one deadline without being re-planned");
+    if (w.anch.count(id))
+    {
+        auto &a = w.anch[id];
+        a.count++;
+        if (d != a.s + a.count * a.iv) ofail("drift over the history: firing number k is not at start + k*interval: timer " + std::to_string(id));
+    }
     // ---- scripted actions, on the real manager and on the reference ----
     auto before = w.ref.pending(id) ? w.ref.pend[id] : std::make_pair((i64)0, (i64)0);
+    auto before_fld = w.ref.fld[id];
     bool was_pending = w.ref.pending(id);
-    w.planned_by_prev.clear();
-    for (auto &r : w.rules)
+    c.planned_by_prev.clear();
+    c.cur_id = id;
+    unsigned long gen0 = w.self_touch_gen;
+    for (size_t ri = 0; ri < w.rules.size(); ri++)
     {
-        if ((r.id != -1 && r.id != id) || (r.k != -1 && r.k != w.k)) continue;
+        const rule r = w.rules[ri]; // copy: a nested exec does not change w.rules, but stay safe
+        if ((r.id != -1 && r.id != id) || (r.k != -1 && r.k != myk)) continue;
         for (auto &a : r.acts)
         {
-            if (a.j < 0 || a.j >= (int)w.tim.size()) continue;
-            w.touched.insert(a.j);
+            if (a.kind == 'x')
+            {
+                // nested exec of the same manager
+                ectx n;
+                n.now = a.s;
+                w.stack.push_back(n);
+                w.nested_seen = true;
+                w.maxnow = std::max(w.maxnow, a.s);
+                o.tag("cb-nested-exec");
+                t.exec(a.s);
+                w.stack.pop_back();
+                w.stack.back().cur_id = id;
+                continue;
+            }
+            if (a.j < 0 || a.j >= (int)t.n()) continue;
+            ectx &cc = w.stack.back();
             if (a.kind == 'u')
             {
-                w.tim[a.j]->unplan();
+                t.unplan(a.j);
                 w.ref.unplan(a.j);
+                ref_touch(a.j);
                 o.tag(a.j == id ? "cb-unplan-self" : "cb-unplan-other");
             }
-            else
+            else if (a.kind == 'p')
             {
-                w.mgr->plan(*w.tim[a.j], a.s, a.iv);
+                t.plan(a.j, a.s, a.iv);
                 w.ref.plan(a.j, a.s, a.iv);
-                w.planned_by_prev.insert(a.j);
+                ref_touch(a.j);
+                w.anch[a.j] = {a.s, a.iv, 0};
+                cc.planned_by_prev.insert(a.j);
                 o.tag(a.j == id ? "cb-plan-self" : "cb-plan-other");
-                if (a.s + a.iv <= w.now) o.tag("cb-plan-past");
+                if (a.s + a.iv <= cc.now) o.tag("cb-plan-past");
+                if (a.s + a.iv == cc.now) o.tag("cb-plan-at-now");
                 if (a.s + a.iv < d) o.tag("cb-plan-before-own-deadline");
+            }
+            else if (a.kind == 's' || a.kind == 'i')
+            {
+                if (t.is_planned(a.j)) { w.dirty = true; o.tag("cb-setter-on-planned"); }
+                else o.tag("cb-setter-on-unplanned");
+                if (a.kind == 's') { t.set_start(a.j, a.s); w.ref.fld[a.j].first = a.s; }
+                else { t.set_interval(a.j, a.s); w.ref.fld[a.j].second = a.s; }
+                ref_touch(a.j);
+            }
+            else if (a.kind == 'r')
+            {
+                t.plan1(a.j);
+                w.ref.replan(a.j);
+                ref_touch(a.j);
+                cc.planned_by_prev.insert(a.j);
+                o.tag(a.j == id ? "cb-replan-self" : "cb-replan-other");
+            }
+            else if (a.kind == 'd')
+            {
+                bool next = false;
+                if (a.j != id && w.ref.pending(a.j) && w.ref.pending(id))
+                {
+                    // is j the one that would run next?
+                    i64 dj = w.ref.pend[a.j].first;
+                    size_t earlier = 0;
+                    for (auto &p : w.ref.pend)
+                        if (p.first != id && p.first != a.j && p.second.first < dj) earlier++;
+                    next = earlier == 0;
+                }
+                o.tag(a.j == id ? "cb-destroy-self" : (w.ref.pending(a.j) ? (next ? "cb-destroy-next-pending" : "cb-destroy-other-pending") : "cb-destroy-unplanned"));
+                t.renew(a.j);
+                w.ref.unplan(a.j);
+                w.ref.fld[a.j] = {0, 0};
+                ref_touch(a.j);
             }
         }
     }
     // reference re-arm: still pending and not re-planned by its own callback -> one period later
-    if (was_pending && w.ref.pending(id) && w.ref.pend[id] == before)
+    if (was_pending && w.ref.pending(id) && w.ref.pend[id] == before && w.ref.fld[id] == before_fld)
+    {
+        // (a callback that re-plans its own timer with the values it already has is "left alone" for the
+        // code and for this reference alike; the history anchor is dropped then)
+        bool self_touched = w.self_touch_gen != gen0;
+        auto a = (w.anch.count(id) && !self_touched) ? w.anch[id] : world::anchor{0, 0, -1};
         w.ref.plan(id, before.first, before.second);
-    w.prev_deadline = d;
-    w.k++;
+        if (a.count >= 0) w.anch[id] = a;
+        else w.anch.erase(id);
+        if (self_touched) w.last_fire.erase(id);
+        else w.last_fire[id] = d;
+    }
+    else w.last_fire.erase(id);
+    ectx &c2 = w.stack.back();
+    c2.prev_deadline = d;
+    c2.have_prev = true;
 }
 
 static void drop_world()
 {
-    for (auto *t : W.tim) delete t;
-    W.tim.clear();
-    delete W.mgr;
-    W.mgr = nullptr;
+    delete W.t;
+    W.t = nullptr;
     W.ref = refsched();
     W.cur = 0;
     W.fires_seen = false;
+    W.oracle_on = true;
+    W.unarmed = -1;
+    W.dirty = false;
+    W.last_fire.clear();
+    W.anch.clear();
+    W.stack.clear();
 }
 
 static std::string summary(out &o)
 {
     world &w = W;
+    iface &t = *w.t;
+    (void)o;
     std::string s = "t=";
     bool any = false;
-    for (size_t i = 0; i < w.tim.size(); i++)
+    for (size_t i = 0; i < t.n(); i++)
     {
-        bool p = w.tim[i]->is_planned();
-        i64 f = w.tim[i]->finish();
+        bool p = t.is_planned((int)i);
+        i64 f = t.finish((int)i);
         if (i) s += ",";
         s += std::to_string(f) + "/" + (p ? "1" : "0");
         any |= p;
         // pending set equals the reference's
-        if (p != w.ref.pending((int)i)) o.fail("is_planned differs from the reference pending set: timer " + std::to_string(i));
-        else if (p && w.ref.pend[(int)i].first != f) o.fail("deadline differs from the reference: timer " + std::to_string(i));
+        if (p != w.ref.pending((int)i)) ofail("is_planned differs from the reference pending set: timer " + std::to_string(i));
+        else if (p && t.raw_time(w.ref.pend[(int)i].first) != f) ofail("deadline differs from the reference: timer " + std::to_string(i));
     }
-    bool e = w.mgr->empty();
-    if (e != w.ref.empty()) o.fail("empty() differs from the reference");
-    if (e == any) o.fail("empty() inconsistent with is_planned()");
+    bool e = t.empty();
+    if (e != w.ref.empty()) ofail("empty() differs from the reference");
+    if (e == any) ofail("empty() inconsistent with is_planned()");
     s += std::string(" e=") + (e ? "1" : "0") + " m=";
     if (e) s += "-"; // minimal_interval() on an empty manager is outside the property (reads the list head as a timer)
     else
     {
-        i64 m = w.mgr->minimal_interval(w.cur);
+        i64 m = t.minimal_interval(w.cur);
         s += std::to_string(m);
-        if (!w.ref.empty() && m != w.ref.earliest() - w.cur) o.fail("minimal_interval differs from the reference's time to the next deadline");
+        if (!w.ref.empty() && m != t.raw_diff(w.ref.earliest() - w.cur)) ofail("minimal_interval differs from the reference's time to the next deadline");
     }
-    if (syslock_counter() != 0) o.fail("system lock count is not 0 after the call");
+    if (syslock_counter() != 0) ofail("system lock count is not 0 after the call");
     return s;
 }
 
@@ -257,6 +514,26 @@ static std::string show_st()
     return std::to_string(ST.start) + " " + std::to_string(ST.interval) + " " + std::to_string(ST.planed);
 }
 
+// a tick value that may lie beyond the int64 range of the op line's reader: parsed exactly, given modulo 2^64
+static long parse_wide(const std::string &x)
+{
+    bool neg = !x.empty() && x[0] == '-';
+    unsigned __int128 v = 0;
+    for (size_t i = neg ? 1 : 0; i < x.size(); i++) v = v * 10 + (unsigned)(x[i] - '0');
+    unsigned long u = (unsigned long)v;
+    if (neg) u = 0ul - u;
+    return (long)u;
+}
+static __int128 parse_big(const std::string &x)
+{
+    bool neg = !x.empty() && x[0] == '-';
+    __int128 v = 0;
+    for (size_t i = neg ? 1 : 0; i < x.size(); i++) v = v * 10 + (x[i] - '0');
+    return neg ? -v : v;
+}
+static bool ST_WIDE = false;
+static __int128 ST_VSTART = 0, ST_VIV = 0; // the unbounded values the stimer fields stand for (reset S)
+
 static void run_op(const std::vector<std::string> &w, const std::string &, hv::out &o_)
 {
     out o(o_);
@@ -266,44 +543,115 @@ static void run_op(const std::vector<std::string> &w, const std::string &, hv::o
     if (op == "reset")
     {
         drop_world();
-        if (w[1] == "s")
+        if (w[1] == "s" || w[1] == "S")
         {
             memset(&ST, 0, sizeof ST);
+            ST_WIDE = w[1] == "S";
+            ST_VSTART = ST_VIV = 0;
             o.result = "ok";
             return;
         }
-        int n = atoi(w[1].c_str());
-        W_.mgr = new igris::timer_manager;
-        for (int i = 0; i < n; i++)
-            W_.tim.push_back(new igris::timer<int>(igris::make_delegate(on_fire), (int)i));
+        if (w[1] == "u" || w[1] == "U")
+        {
+            W_.t = new impl<spec_u32>(atoi(w[2].c_str()), -1);
+            W_.oracle_on = w[1] == "u";
+        }
+        else if (w[1] == "z")
+        {
+            int n = atoi(w[2].c_str());
+            W_.t = new impl<igris::timer_spec<int64_t>>(n, n - 1);
+            W_.unarmed = n - 1;
+        }
+        else W_.t = new impl<igris::timer_spec<int64_t>>(atoi(w[1].c_str()), -1);
         o.result = "ok";
         return;
     }
     W_.o = &o;
+    static const std::set<std::string> mgr_ops = {"plan", "plan1", "unplan", "sets", "seti", "replan", "destroy", "dropmgr", "qmin", "q", "exec"};
+    if (mgr_ops.count(op) && !W_.t)
+    {
+        o.result = "bad-op";
+        o.fail("manager op without a manager");
+        return;
+    }
+    iface *Tp = W_.t;
+#define T (*Tp)
     if (op == "plan" || op == "plan1")
     {
         int i = (int)I(1);
-        if (W_.tim[i]->is_planned()) o.tag("plan-while-planned");
-        for (size_t j = 0; j < W_.tim.size(); j++)
-            if ((int)j != i && W_.tim[j]->is_planned() && W_.tim[j]->finish() == I(2) + I(3)) { o.tag("plan-tie"); break; }
-        if (op == "plan") W_.mgr->plan(*W_.tim[i], I(2), I(3));
+        if (T.is_planned(i)) o.tag("plan-while-planned");
+        for (size_t j = 0; j < T.n(); j++)
+            if ((int)j != i && T.is_planned((int)j) && T.finish((int)j) == T.raw_time(I(2) + I(3))) { o.tag("plan-tie"); break; }
+        if (op == "plan") T.plan(i, I(2), I(3));
         else
         {
-            W_.tim[i]->set_start(I(2));
-            W_.tim[i]->set_interval(I(3));
-            W_.mgr->plan(*W_.tim[i]);
+            T.set_start(i, I(2));
+            T.set_interval(i, I(3));
+            T.plan1(i);
             o.tag("plan-1arg");
         }
         W_.ref.plan(i, I(2), I(3));
+        W_.last_fire.erase(i);
+        W_.anch[i] = {I(2), I(3), 0};
         o.result = summary(o);
         return;
     }
     if (op == "unplan")
     {
         int i = (int)I(1);
-        o.tag(W_.tim[i]->is_planned() ? "unplan-planned" : "unplan-unplanned");
-        W_.tim[i]->unplan();
+        o.tag(T.is_planned(i) ? "unplan-planned" : "unplan-unplanned");
+        T.unplan(i);
         W_.ref.unplan(i);
+        W_.last_fire.erase(i);
+        W_.anch.erase(i);
+        o.result = summary(o);
+        return;
+    }
+    if (op == "sets" || op == "seti")
+    {
+        int i = (int)I(1);
+        if (T.is_planned(i)) { W_.dirty = true; o.tag("setter-on-planned"); }
+        else o.tag("setter-on-unplanned");
+        if (op == "sets") { T.set_start(i, I(2)); W_.ref.fld[i].first = I(2); }
+        else { T.set_interval(i, I(2)); W_.ref.fld[i].second = I(2); }
+        W_.last_fire.erase(i);
+        W_.anch.erase(i);
+        o.result = summary(o);
+        return;
+    }
+    if (op == "replan")
+    {
+        int i = (int)I(1);
+        o.tag(T.is_planned(i) ? "replan-planned" : "replan-unplanned");
+        T.plan1(i);
+        W_.ref.replan(i);
+        W_.last_fire.erase(i);
+        W_.anch[i] = {W_.ref.fld[i].first, W_.ref.fld[i].second, 0};
+        o.result = summary(o);
+        return;
+    }
+    if (op == "destroy")
+    {
+        int i = (int)I(1);
+        o.tag(T.is_planned(i) ? "destroy-planned" : "destroy-unplanned");
+        T.renew(i);
+        W_.ref.unplan(i);
+        W_.ref.fld[i] = {0, 0};
+        W_.last_fire.erase(i);
+        W_.anch.erase(i);
+        o.result = summary(o);
+        return;
+    }
+    if (op == "dropmgr")
+    {
+        o.tag(T.empty() ? "dropmgr-empty" : "dropmgr-pending");
+        T.renew_mgr();
+        for (size_t i = 0; i < T.n(); i++) W_.ref.unplan((int)i);
+        W_.last_fire.clear();
+        W_.anch.clear();
+        // every timer must have been unlinked by the manager's destructor
+        for (size_t i = 0; i < T.n(); i++)
+            if (T.is_planned((int)i)) ofail("timer " + std::to_string(i) + " is still linked after its manager was destroyed");
         o.result = summary(o);
         return;
     }
@@ -312,11 +660,11 @@ static void run_op(const std::vector<std::string> &w, const std::string &, hv::o
         // minimal_interval() called unconditionally (finding C16-minimal-interval-empty: on an
         // empty manager the code reads start/interval through the list head; ASan aborts here)
         W_.cur = I(1);
-        bool e = W_.mgr->empty();
-        i64 m = W_.mgr->minimal_interval(W_.cur);
+        bool e = T.empty();
+        i64 m = T.minimal_interval(W_.cur);
         o.result = e ? "fault" : std::to_string(m);
         if (e) o.fail("minimal_interval() on an empty manager returned " + std::to_string(m) + " (no next deadline exists)");
-        else if (m != W_.ref.earliest() - W_.cur) o.fail("minimal_interval differs from the reference's time to the next deadline");
+        else if (m != T.raw_diff(W_.ref.earliest() - W_.cur)) ofail("minimal_interval differs from the reference's time to the next deadline");
         o.tag(e ? "qmin-empty" : "qmin");
         return;
     }
@@ -330,14 +678,22 @@ static void run_op(const std::vector<std::string> &w, const std::string &, hv::o
     {
         i64 now = I(1);
         if (W_.fires_seen && now == W_.now) o.tag("exec-same-time");
+        if (W_.fires_seen && (T.raw_time(now) < T.raw_time(W_.now)) && now > W_.now) o.tag("exec-across-wrap");
+        W_.maxnow = W_.fires_seen ? std::max(W_.maxnow, now) : now;
         W_.fires_seen = true;
         W_.now = now;
         W_.cur = now;
         W_.rules = parse_rules(w[2]);
         W_.k = 0;
         W_.fires.clear();
-        W_.planned_by_prev.clear();
         W_.touched.clear();
+        W_.nested_seen = false;
+        W_.stack.clear();
+        {
+            ectx c;
+            c.now = now;
+            W_.stack.push_back(c);
+        }
         // snapshot for the direct catch-up check
         auto before = W_.ref.pend;
         {
@@ -347,10 +703,14 @@ static void run_op(const std::vector<std::string> &w, const std::string &, hv::o
                 if (p.second.first <= now) { due++; ds.insert(p.second.first); }
             if (due > ds.size()) o.tag("tie-among-due");
             if (due >= 2) o.tag("several-due");
+            for (auto &p : before)
+                if (T.raw_time(p.second.first) < T.raw_time(p.second.first - p.second.second)) { o.tag("deadline-beyond-wrap"); break; }
         }
         W_.in_exec = true;
-        W_.mgr->exec(now);
+        T.exec(now);
         W_.in_exec = false;
+        W_.stack.clear();
+        ref_unarmed(now, true);
         std::string f;
         for (auto &x : W_.fires)
         {
@@ -359,35 +719,109 @@ static void run_op(const std::vector<std::string> &w, const std::string &, hv::o
         }
         if (f.empty()) f = "-";
         // ---- oracle after exec, directly on the real objects ----
-        for (size_t i = 0; i < W_.tim.size(); i++)
-            if (W_.tim[i]->is_planned() && W_.tim[i]->finish() <= now)
-                o.fail("a planned timer whose deadline has passed did not run: timer " + std::to_string(i));
-        if (!W_.ref.empty() && W_.ref.earliest() <= now) o.fail("reference still has a due timer after exec");
+        for (size_t i = 0; i < T.n(); i++)
+            if (T.is_planned((int)i) && T.virt(T.finish((int)i), now) <= now)
+                ofail("a planned timer whose deadline has passed did not run: timer " + std::to_string(i));
+        if (!W_.ref.empty() && W_.ref.earliest() <= now) ofail("reference still has a due timer after exec");
         // timers no callback touched: exactly one firing per elapsed period, no drift
+        int unarmed = W_.unarmed;
         for (auto &p : before)
         {
             int id = p.first;
             i64 d = p.second.first, iv = p.second.second;
             std::vector<i64> got;
             for (auto &x : W_.fires)
-                if (x.first == id) got.push_back(x.second);
-            if (W_.touched.count(id)) continue;
+                if (x.first == id) got.push_back(T.virt(x.second, now));
+            if (W_.touched.count(id) || W_.nested_seen) continue;
             i64 want = d <= now ? (now - d) / iv + 1 : 0;
-            if ((i64)got.size() != want) o.fail("timer " + std::to_string(id) + " fired " + std::to_string(got.size()) + " times, elapsed periods " + std::to_string(want));
-            for (size_t k = 0; k < got.size(); k++)
-                if (got[k] != d + (i64)k * iv) { o.fail("drift: firing deadline is not start + k*interval: timer " + std::to_string(id)); break; }
-            if (!W_.tim[id]->is_planned() || W_.tim[id]->finish() != d + want * iv) o.fail("re-arm: deadline is not previous deadline + interval: timer " + std::to_string(id));
+            if (id == unarmed)
+            {
+                if (!got.empty()) ofail("an unarmed delegate made a callback");
+                o.tag("unarmed-delegate");
+            }
+            else
+            {
+                if ((i64)got.size() != want) ofail("timer " + std::to_string(id) + " fired " + std::to_string(got.size()) + " times, elapsed periods " + std::to_string(want));
+                for (size_t k = 0; k < got.size(); k++)
+                    if (got[k] != d + (i64)k * iv) { ofail("drift: firing deadline is not start + k*interval: timer " + std::to_string(id)); break; }
+            }
+            if (!T.is_planned(id) || T.finish(id) != T.raw_time(d + want * iv)) ofail("re-arm: deadline is not previous deadline + interval: timer " + std::to_string(id));
             if (want >= 2) o.tag("catch-up");
             if (want >= 10) o.tag("long-gap");
         }
-        for (size_t i = 0; i < W_.tim.size(); i++)
+        // no drift over the whole history: a timer planned at (s, iv) and left alone has fired floor((now - s)/iv) times
+        for (auto &a : W_.anch)
+        {
+            if (!W_.ref.pending(a.first) || a.first == unarmed || W_.nested_seen) continue;
+            i64 s = a.second.s, iv = a.second.iv;
+            if (iv <= 0) continue;
+            i64 want = now >= s ? (now - s) / iv : 0;
+            i64 most = W_.maxnow >= s ? (W_.maxnow - s) / iv : 0; // (a nested exec may have run with a later time)
+            if (a.second.count > most) ofail("timer " + std::to_string(a.first) + " has fired more often than floor((now - start)/interval)");
+            if (a.second.count < want && !W_.touched.count(a.first)) ofail("timer " + std::to_string(a.first) + " has fired less often than floor((now - start)/interval)");
+            if (a.second.count >= 2) o.tag("history-no-drift-checked");
+        }
+        for (size_t i = 0; i < T.n(); i++)
             if (!before.count((int)i) && !W_.touched.count((int)i))
                 for (auto &x : W_.fires)
-                    if (x.first == (int)i) { o.fail("an unplanned timer fired: timer " + std::to_string(i)); break; }
+                    if (x.first == (int)i) { ofail("an unplanned timer fired: timer " + std::to_string(i)); break; }
         if (W_.fires.empty()) o.tag("nothing-due");
         else o.tag("fired");
         if (W_.fires.size() >= 2) o.tag("multi-fire");
         o.result = "f=" + f + " " + summary(o);
+        return;
+    }
+#undef T
+    if (ST_WIDE)
+    {
+        // stimer fed with tick values modulo 2^64; oracle: the rule on the unbounded values
+        auto WV = [&](size_t k) { return parse_wide(w[k]); };
+        auto BV = [&](size_t k) { return parse_big(w[k]); };
+        o.tag("stimer-wide");
+        if (op == "sinit") { stimer_init(&ST, WV(1), WV(2)); ST_VSTART = BV(1); ST_VIV = BV(2); o.result = show_st(); return; }
+        if (op == "splan") { stimer_plan(&ST, WV(1), WV(2)); ST_VSTART = BV(1); ST_VIV = BV(2); o.result = show_st(); return; }
+        if (op == "sstart") { stimer_start(&ST, WV(1)); ST_VSTART = BV(1); o.result = show_st(); return; }
+        if (op == "sswift")
+        {
+            stimer_swift(&ST);
+            ST_VSTART += ST_VIV;
+            if ((long)(unsigned long)ST_VSTART != ST.start) o.fail("stimer_swift: start is not (start + interval) modulo 2^64");
+            o.result = show_st();
+            return;
+        }
+        if (op == "sfinish")
+        {
+            unsigned long f = stimer_finish(&ST);
+            o.result = std::to_string(f);
+            if ((unsigned long)(ST_VSTART + ST_VIV) != f) o.fail("stimer_finish != start + interval modulo 2^64");
+            return;
+        }
+        if (op == "scheck" || op == "speriodic")
+        {
+            __int128 now = BV(1);
+            bool due = ST.planed && now >= ST_VSTART + ST_VIV;
+            if ((long)(unsigned long)ST_VSTART > (long)(unsigned long)now) o.tag("stimer-across-wrap");
+            if (op == "scheck")
+            {
+                int c = stimer_check(&ST, WV(1));
+                o.result = c ? "1" : "0";
+                if ((c != 0) != due) o.fail("stimer_check across the wrap differs from planned && now >= start + interval (unbounded time)");
+                o.tag(c ? "stimer-due" : (ST.planed ? "stimer-not-due" : "stimer-unplanned"));
+                return;
+            }
+            bool fired = false;
+            long tnow = WV(1);
+            STIMER_PERIODIC(&ST, tnow) { fired = true; }
+            if (fired != due) o.fail("STIMER_PERIODIC across the wrap: body ran although not due (or did not run although due)");
+            if (fired) ST_VSTART += ST_VIV;
+            if ((long)(unsigned long)ST_VSTART != ST.start || (long)(unsigned long)ST_VIV != ST.interval)
+                o.fail("STIMER_PERIODIC across the wrap: start is not the previous start + interval (modulo 2^64)");
+            o.result = std::string(fired ? "1 " : "0 ") + show_st();
+            o.tag(fired ? "stimer-periodic-fired" : "stimer-periodic-idle");
+            return;
+        }
+        o.result = "bad-op";
+        o.fail("unknown op");
         return;
     }
     // ---------------- stimer ----------------
@@ -673,6 +1107,454 @@ static void gen_stimer(hv::rng &r, int cases)
     }
 }
 
+// ---------------------------------------------------------------------------
+// extensions: the unsigned 32-bit manager across the wrap, setters / plan(tim) / destruction /
+// nested exec, unarmed delegate, stimer across LONG_MAX
+// ---------------------------------------------------------------------------
+static const i64 P32 = 4294967296LL, P31 = 2147483648LL, P30 = 1073741824LL;
+
+static void gen_wrap_directed()
+{
+    // a deadline before the wrap and one after it: the one before must run first and on time
+    emit("reset u 3");
+    emit("plan 0 4294967264 16");   // deadline 2^32 - 16
+    emit("plan 1 4294967264 37");   // deadline 2^32 + 5
+    emit("exec 4294967272 -");
+    emit("exec 4294967282 -");
+    emit("exec 4294967295 -");
+    emit("exec 4294967296 -");
+    emit("exec 4294967301 -");
+    emit("exec 4294967340 -");
+    // periodic timers running through the wrap with a long gap, ties exactly at 2^32
+    emit("reset u 3");
+    emit("plan 0 4294967196 100");  // deadline 2^32
+    emit("plan 1 4294967286 10");   // deadline 2^32
+    emit("plan 2 4294967290 3");
+    emit("exec 4294967294 -");
+    emit("exec 4294967296 -");
+    emit("exec 4294967297 2@*:p2.4294967297.7");
+    emit("exec 4294967500 0@0:u1");
+    emit("q 4294967500");
+    // second and third wrap, planning from a callback across the wrap
+    emit("reset u 2");
+    emit("plan 0 8589934580 5");
+    emit("exec 8589934590 0@1:p1.8589934589.9");
+    emit("exec 8589934600 -");
+    emit("reset u 2");
+    emit("plan 0 12884901870 5");
+    emit("exec 12884901879 -");
+    emit("plan 1 12884901880 1000");
+    emit("exec 12884901888 -");
+    emit("exec 12884902900 -");
+    // half-range boundary of the signed difference: deadlines 2^30 + 2^30 - 2 apart are still ordered
+    emit("reset u 2");
+    emit("plan 0 1073741824 1073741823");
+    emit("plan 1 1073741823 1073741820");
+    emit("exec 1073741825 -");
+    emit("exec 2147483643 -");
+    emit("exec 2147483646 -");
+    emit("exec 2147483647 -");
+    emit("exec 2147483648 -");
+}
+
+static std::string gen_rules_wrap(hv::rng &r, int n, i64 now, const std::vector<i64> &ivs)
+{
+    if (r.chance(50)) return "-";
+    std::string s;
+    int nr = (int)r.range(1, 2);
+    for (int q = 0; q < nr; q++)
+    {
+        bool anyk = r.chance(55);
+        std::string sel = (r.chance(25) ? std::string("*") : S(r.below(n))) + "@" + (anyk ? std::string("*") : S(r.below(4)));
+        std::string acts;
+        int na = (int)r.range(1, 2);
+        for (int a = 0; a < na; a++)
+        {
+            if (!acts.empty()) acts += ",";
+            int j = (int)r.below(n);
+            if (r.chance(35)) acts += "u" + S(j);
+            else
+            {
+                i64 iv = r.pick(ivs);
+                i64 st;
+                if (!anyk && r.chance(40)) st = now - iv - (i64)r.below(7); // deadline in [now-6, now]: only from a single callback
+                else st = now - (i64)r.below(std::min<i64>(iv, 6));          // start <= now, deadline after now
+                acts += "p" + S(j) + "." + S(st) + "." + S(iv);
+            }
+        }
+        if (!s.empty()) s += ";";
+        s += sel + ":" + acts;
+    }
+    return s;
+}
+
+// histories that respect the window precondition: starts <= the clock, every deadline >= the time of the
+// previous exec, (gap between execs) + (interval) < 2^31
+static void gen_wrap_case(hv::rng &r)
+{
+    int n = (int)r.range(1, 5);
+    emit("reset u " + S(n));
+    static const std::vector<i64> bases = {P32 - 40, P32 - 40, P32 - 1000, 3 * P32 - 25, P31 - 30, P32 - P30, 2 * P32 - P30 - 500, 0};
+    // a case has either small intervals and small steps, or large intervals and steps of up to a quarter of
+    // the range (a large step over a small interval would mean 10^9 callbacks)
+    bool bigiv = r.chance(35);
+    std::vector<i64> ivs = {1, 2, 3, 5, 7, 10, 100};
+    std::vector<i64> steps = {0, 1, 1, 2, 3, 7, 7, 50, 1000};
+    if (bigiv)
+    {
+        ivs = {P30 - 1, P30 / 2 + 12345, P30 / 4, P30 / 4 + 1, 300000000};
+        steps = {0, 1, 7, 1000, P30 / 4, P30 / 2, P30 - 3, P30, 300000000};
+    }
+    i64 now = r.pick(bases) + r.range(0, 30);
+    i64 lo = now; // time of the previous exec (or of the creation)
+    std::vector<i64> lastfin(n, now);
+    int len = (int)r.range(4, 24);
+    for (int q = 0; q < len; q++)
+    {
+        unsigned c = (unsigned)r.below(100);
+        if (c < 36 || q < 2)
+        {
+            int i = (int)r.below(n);
+            i64 iv = r.pick(ivs);
+            // the clock may have advanced a little since the previous exec
+            if (r.chance(30)) now += (i64)r.below(4);
+            i64 st;
+            unsigned m = (unsigned)r.below(100);
+            if (m < 45) st = now - (i64)r.below(std::min<i64>(iv, 4));
+            else if (m < 70) st = lastfin[r.below(n)] - iv; // same deadline as another timer
+            else st = now;
+            if (st > now) st = now;
+            if (st + iv < lo) st = lo - iv + (i64)r.below(3);
+            if (st > now) st = now;
+            lastfin[i] = st + iv;
+            emit(std::string(r.chance(12) ? "plan1 " : "plan ") + S(i) + " " + S(st) + " " + S(iv));
+        }
+        else if (c < 46) emit("unplan " + S(r.below(n)));
+        else if (c < 94)
+        {
+            i64 step = r.pick(steps);
+            if (now + step - lo > P30) step = 0;
+            now += step;
+            lo = now;
+            emit("exec " + S(now) + " " + gen_rules_wrap(r, n, now, ivs));
+        }
+        else emit("q " + S(now));
+    }
+}
+
+// histories OUTSIDE the precondition (model comparison only): gaps / intervals of half the range and more,
+// starts in the future.  Intervals are never 0 modulo 2^32 and a timer whose start lies in the future gets a
+// large interval (an unsigned `check` sees a future start as "almost 2^32 ticks ago": it fires at once and
+// keeps firing until start has caught up).
+static void gen_wrap_outside_case(hv::rng &r)
+{
+    int n = (int)r.range(1, 4);
+    emit("reset U " + S(n));
+    bool small = r.chance(20);
+    std::vector<i64> ivs = {P31 - 1, P31, P31 + 1, P32 - 1, P30, 3 * P30, P32 + P30 + 5, P32 - 2};
+    if (small) ivs = {7, 100, P32 + 5, P32 - 1, P31};
+    std::vector<i64> steps = {0, 1, 7, P31 - 2, P31, P31 + 7, P32 - 1, P32, P32 + 3, P30};
+    i64 now = r.pick(std::vector<i64>{0, P32 - 40, P31 - 5, 5 * P32 - 3}) + r.range(0, 9);
+    int len = (int)r.range(3, 14);
+    for (int q = 0; q < len; q++)
+    {
+        unsigned c = (unsigned)r.below(100);
+        if (c < 45 || q < 2)
+        {
+            i64 iv = r.pick(ivs);
+            i64 st = now - (i64)r.below(5);
+            if (r.chance(25)) { st = now + 1 + (i64)r.below(50); if (iv % P32 < P30) iv = P30 + (i64)r.below(1000); }
+            emit("plan " + S(r.below(n)) + " " + S(st) + " " + S(iv));
+        }
+        else if (c < 52) emit("unplan " + S(r.below(n)));
+        else
+        {
+            // (a small interval with a step of half the range would mean 10^8 callbacks: small intervals are
+            // only planned in cases whose steps are small)
+            now += small ? r.pick(std::vector<i64>{0, 1, 7, 300}) : r.pick(steps);
+            emit("exec " + S(now) + " -");
+        }
+    }
+}
+
+// the two-timer witness scenarios of the Lean theorems as cases of the stream
+static void gen_wrap_outside_directed()
+{
+    // gap < 2^31 and interval < 2^31 is NOT enough: 2^31 - 2 after the last exec a timer with interval
+    // 2^31 - 1 is planned while timer 0 is overdue; the signed difference of the deadlines wraps
+    emit("reset U 2");
+    emit("plan 0 0 5");
+    emit("plan 1 2147483646 2147483647");
+    emit("q 2147483646");
+    // a start in the future is read as a start almost 2^32 ticks ago: fires at once
+    emit("reset U 1");
+    emit("plan 0 110 1073741824");
+    emit("exec 100 -");
+}
+
+// setters, plan(tim), destruction, nested exec; int64 manager
+// hasiv[j]: timer j is known to hold a positive interval (plan(tim) of a timer with interval 0 - a fresh or a
+// destroyed one - would make exec spin forever: outside "positive intervals")
+static std::string gen_rules_ext(hv::rng &r, int n, i64 now, const std::vector<i64> &ivs, bool &nested, std::vector<bool> &hasiv)
+{
+    std::vector<bool> destroyed(n, false);
+    bool later = false; // a nested exec with a LATER time is in the rules: no rule may then repeat for every callback
+                        // (a plan "after now" repeated by every callback can lie before the nested time: endless loop)
+    std::string s;
+    int nr = (int)r.range(1, 3);
+    for (int q = 0; q < nr; q++)
+    {
+        int id = (int)r.below(n);
+        int k = (int)r.below(4);
+        bool anyk = r.chance(40);
+        std::string acts;
+        unsigned m = (unsigned)r.below(100);
+        int j = (int)r.below(n);
+        if (n > 1 && j == id && r.chance(50)) j = (j + 1) % n;
+        i64 iv = r.pick(ivs);
+        if (later) anyk = false;
+        if (m < 46) anyk = false; // a setter / plan(tim) repeated by EVERY callback can pin a deadline in the past: exec would never return
+        if (m < 14) acts = "s" + S(j) + "." + S(now - (i64)r.below(5));
+        else if (m < 26) acts = "i" + S(j) + "." + S(iv);
+        else if (m < 38) acts = "u" + S(j) + ",s" + S(j) + "." + S(now - (i64)r.below(3)) + ",i" + S(j) + "." + S(iv) + ",r" + S(j); // the legal way
+        else if (m < 46) acts = (hasiv[j] && !destroyed[j]) ? "r" + S(j) : "u" + S(j);
+        else if (m < 62)
+        {
+            if (j == id) j = (j + 1) % n;
+            if (j == id) acts = "u" + S(id);
+            else if (nested) acts = "u" + S(j); // (a nested callback could be destroying the outer callback's timer)
+            else
+            {
+                // destroy ANOTHER timer (pending or not, possibly the next one); no plan(tim) of it in this exec
+                acts = "d" + S(j);
+                destroyed[j] = true;
+                size_t pos;
+                while ((pos = s.find("r" + S(j))) != std::string::npos) s[pos] = 'u';
+            }
+        }
+        else if (m < 82 && !nested && s.find(":d") == std::string::npos)
+        {
+            // nested exec after the callback took its own timer out of the way (unplanned, or re-planned into the future)
+            nested = true;
+            anyk = false;
+            i64 now2 = now + (r.chance(50) ? 0 : (i64)r.below(9)) - (r.chance(15) ? 3 : 0);
+            if (now2 > now)
+            {
+                if (s.find("@*") != std::string::npos) now2 = now;
+                else later = true;
+            }
+            if (r.chance(50)) acts = "u" + S(id) + ",x" + S(now2);
+            else acts = "p" + S(id) + "." + S(std::max(now, now2)) + "." + S(iv) + ",x" + S(now2);
+        }
+        else acts = "p" + S(j) + "." + S(now - (i64)r.below(std::min<i64>(iv, 3))) + "." + S(iv);
+        if (!s.empty()) s += ";";
+        s += S(id) + "@" + (anyk ? std::string("*") : S(k)) + ":" + acts;
+    }
+    for (int j = 0; j < n; j++)
+        if (destroyed[j]) hasiv[j] = false;
+    return s;
+}
+
+static void gen_ext_case(hv::rng &r)
+{
+    int n = (int)r.range(2, 5);
+    emit("reset " + S(n));
+    std::vector<i64> ivs = {1, 2, 3, 5, 7, 10};
+    std::vector<i64> steps = {0, 1, 1, 2, 3, 7, 20};
+    i64 now = r.chance(50) ? 0 : 1000;
+    int len = (int)r.range(5, 24);
+    std::vector<bool> hasiv(n, false);
+    for (int q = 0; q < len; q++)
+    {
+        unsigned c = (unsigned)r.below(100);
+        int i = (int)r.below(n);
+        if (c < 25 || q < 2) { emit("plan " + S(i) + " " + S(now - (i64)r.below(3)) + " " + S(r.pick(ivs))); hasiv[i] = true; }
+        else if (c < 31) emit("unplan " + S(i));
+        else if (c < 38) emit("sets " + S(i) + " " + S(now + r.range(-4, 2)));
+        else if (c < 44) { emit("seti " + S(i) + " " + S(r.pick(ivs))); hasiv[i] = true; }
+        else if (c < 52) emit((hasiv[i] ? "replan " : "unplan ") + S(i));
+        else if (c < 57) { emit("destroy " + S(i)); hasiv[i] = false; }
+        else if (c < 60) emit("dropmgr");
+        else if (c < 95)
+        {
+            now += r.pick(steps);
+            bool nested = false;
+            emit("exec " + S(now) + " " + (r.chance(30) ? std::string("-") : gen_rules_ext(r, n, now, ivs, nested, hasiv)));
+        }
+        else emit("q " + S(now));
+    }
+}
+
+static void gen_ext_directed()
+{
+    // set_start / set_interval on a planned timer: the list is no longer sorted, a due timer waits behind a later one
+    emit("reset 3");
+    emit("plan 0 0 5");
+    emit("plan 1 0 7");
+    emit("sets 0 10");         // timer 0 now has deadline 15 but is still in front
+    emit("exec 8 -");          // timer 1 (deadline 7) is due and does not run
+    emit("replan 0");          // plan(tim) puts it where it belongs
+    emit("exec 8 -");
+    emit("seti 1 1");
+    emit("exec 30 -");
+    // the legal sequence: unplan, set, set, plan(tim)
+    emit("reset 2");
+    emit("plan 0 0 5");
+    emit("plan 1 0 6");
+    emit("unplan 0");
+    emit("sets 0 3");
+    emit("seti 0 2");
+    emit("replan 0");
+    emit("exec 5 -");
+    emit("exec 6 1@*:u0,s0.6,i0.1,r0");
+    emit("exec 9 -");
+    // destroying timers from callbacks: an unplanned one, a pending one, the NEXT one in the list
+    emit("reset 4");
+    emit("plan 0 0 5");
+    emit("plan 1 0 5");
+    emit("plan 2 0 6");
+    emit("exec 5 0@0:d1");     // timer 1 is the next in the list when timer 0's callback destroys it
+    emit("exec 6 2@*:d3");     // an unplanned one
+    emit("plan 3 6 4");
+    emit("exec 10 0@*:d3,d2"); // two pending ones
+    emit("destroy 0");
+    emit("exec 20 -");
+    // destroying the manager with planned timers, and again when it is empty
+    emit("reset 3");
+    emit("plan 0 0 5");
+    emit("plan 1 0 6");
+    emit("dropmgr");
+    emit("exec 10 -");
+    emit("plan 1 10 1");
+    emit("exec 11 -");
+    emit("dropmgr");
+    emit("dropmgr");
+    emit("q 11");
+    // nested exec from a callback that has unplanned / re-planned its own timer
+    emit("reset 3");
+    emit("plan 0 0 5");
+    emit("plan 1 0 5");
+    emit("plan 2 0 8");
+    emit("exec 5 0@0:u0,x5");
+    emit("exec 8 2@0:p2.8.8,x9;1@*:p0.8.1");
+    emit("exec 20 1@0:p1.20.5,x3");   // nested exec with an EARLIER time: nothing is due for it
+    emit("exec 30 -");
+    // planning from a callback with deadlines before / at / after now; minimal_interval after each
+    emit("reset 3");
+    emit("plan 0 0 5");
+    emit("exec 5 0@0:p1.0.3");   // before now: runs in this exec
+    emit("exec 10 0@0:p2.5.5");  // at now: runs in this exec
+    emit("exec 15 0@0:p1.15.1"); // after now
+    emit("exec 16 -");
+    // recorded findings (each probe ends its case)
+    emit("reset 2");
+    emit("plan 0 0 5");
+    emit("plan 1 0 6");
+    emit("@F:C16-nested-exec-refires exec 5 0@0:x5");
+    emit("reset 2");
+    emit("plan 0 0 5");
+    emit("plan 1 0 5");
+    emit("@F:C16-destroy-self-in-callback exec 5 0@0:d0");
+}
+
+static void gen_unarmed_case(hv::rng &r)
+{
+    int n = (int)r.range(2, 4);
+    emit("reset z " + S(n));
+    std::vector<i64> ivs = {1, 2, 3, 5, 7};
+    i64 now = 0;
+    int len = (int)r.range(4, 14);
+    for (int q = 0; q < len; q++)
+    {
+        unsigned c = (unsigned)r.below(100);
+        int i = (q == 0) ? n - 1 : (int)r.below(n);
+        if (c < 40 || q < 2) emit("plan " + S(i) + " " + S(now - (i64)r.below(2)) + " " + S(r.pick(ivs)));
+        else if (c < 48) emit("unplan " + S(i));
+        else
+        {
+            now += r.pick(std::vector<i64>{0, 1, 2, 5, 12});
+            std::string rules = "-";
+            if (r.chance(40))
+            {
+                int j = (int)r.below(n);
+                rules = (r.chance(50) ? std::string("*") : S(r.below(n))) + "@*:" + (r.chance(50) ? "u" + S(j) : "p" + S(j) + "." + S(now) + "." + S(r.pick(ivs)));
+            }
+            emit("exec " + S(now) + " " + rules);
+        }
+    }
+}
+
+// stimer with the tick counter running through LONG_MAX (and through 2^64)
+static std::string BIG(__int128 v)
+{
+    if (v == 0) return "0";
+    bool neg = v < 0;
+    if (neg) v = -v;
+    std::string s;
+    while (v > 0) { s.insert(s.begin(), (char)('0' + (int)(v % 10))); v /= 10; }
+    return neg ? "-" + s : s;
+}
+static void gen_stimer_wide_directed()
+{
+    emit("reset S");
+    emit("splan 9223372036854775802 10");  // start LONG_MAX - 5, deadline beyond LONG_MAX
+    emit("scheck 9223372036854775806");
+    emit("sfinish");
+    emit("scheck 9223372036854775811");
+    emit("scheck 9223372036854775812");
+    emit("speriodic 9223372036854775813");
+    emit("speriodic 9223372036854775813");
+    emit("speriodic 9223372036854775840");
+    emit("speriodic 9223372036854775840");
+    emit("sswift");
+    emit("sfinish");
+}
+static void gen_stimer_wide(hv::rng &r, int cases)
+{
+    const __int128 P63 = (__int128)1 << 63, P64 = (__int128)1 << 64;
+    for (int c = 0; c < cases; c++)
+    {
+        emit("reset S");
+        __int128 base = r.pick(std::vector<__int128>{P63 - 20, P63 - 1000, P64 - 15, P64 + P63 - 9, 0, 3 * P64 - 100});
+        __int128 now = base + (i64)r.below(20);
+        __int128 st = 0, ivl = 0;
+        int len = (int)r.range(4, 16);
+        for (int q = 0; q < len; q++)
+        {
+            unsigned m = (unsigned)r.below(100);
+            i64 iv = r.pick(std::vector<i64>{1, 2, 3, 7, 10, 25, 100, 1000000, 4611686018427387000LL});
+            if (m < 18 || q == 0) { st = now - (i64)r.below(4); ivl = iv; emit("splan " + BIG(st) + " " + S(iv)); }
+            else if (m < 22) { st = now - (i64)r.below(4); ivl = iv; emit("sinit " + BIG(st) + " " + S(iv)); }
+            else if (m < 28) { st = now - (i64)r.below(4); emit("sstart " + BIG(st)); }
+            else if (m < 33) { st += ivl; emit("sswift"); }
+            else if (m < 40) emit("sfinish");
+            else
+            {
+                __int128 t = now + (i64)r.range(0, 4) * (r.chance(20) ? 9 : 1);
+                if (r.chance(50) && st + ivl + 1 >= now) t = std::max(now, st + ivl + (i64)r.range(-1, 1));
+                // stay inside the window: the start is at most 2^62 behind
+                if (t - st > ((__int128)1 << 62)) t = now;
+                now = t;
+                if (m < 65) emit("scheck " + BIG(now));
+                else { emit("speriodic " + BIG(now)); if (now >= st + ivl) st += ivl; }
+            }
+        }
+    }
+}
+
+static void gen_extensions(hv::rng &r, bool th)
+{
+    gen_wrap_directed();
+    gen_wrap_outside_directed();
+    gen_ext_directed();
+    gen_stimer_wide_directed();
+    for (int c = 0; c < (th ? 12000 : 1500); c++) gen_wrap_case(r);
+    for (int c = 0; c < (th ? 2000 : 300); c++) gen_wrap_outside_case(r);
+    for (int c = 0; c < (th ? 12000 : 1500); c++) gen_ext_case(r);
+    for (int c = 0; c < (th ? 1500 : 200); c++) gen_unarmed_case(r);
+    gen_stimer_wide(r, th ? 3000 : 400);
+}
+
 static void gen(hv::rng &r, const std::string &tier)
 {
     bool th = tier == "thorough";
@@ -682,6 +1564,7 @@ static void gen(hv::rng &r, const std::string &tier)
     int nrand = th ? 30000 : 5000;
     for (int c = 0; c < nrand; c++) gen_random_case(r, c % 3 != 0);
     gen_stimer(r, th ? 5000 : 1000);
+    gen_extensions(r, th);
 }
 
 int main(int argc, char **argv)
